@@ -83,6 +83,21 @@ func ZZAPI(props, script, varspec string) {
 	e.reference()
 	if e.unsupported != "" {
 		zzvrt.Note("oracle undefined: " + e.unsupported)
+		if zzWant(props, "C02") {
+			// what the script should do is not fixed by the texts, but whatever it does,
+			// every posting of a successful run is a real transfer
+			res, err := e.pr.Run(context.Background(), e.varsMap, e.store)
+			zzvrt.Note("result=" + zzErrClass(err))
+			if err == nil {
+				zzNotePostings(res.Postings)
+				for _, p := range res.Postings {
+					zzvrt.Assert(zzvrt.Lt(big.NewInt(0), p.Amount), "C02:posting-positive")
+					zzvrt.Assert(p.Source != "" && p.Destination != "" && p.Source != "<kept>" && p.Destination != "<kept>", "C02:real-accounts")
+				}
+			}
+			zzvrt.Reach("undefined-by-text-postings-checked")
+			return
+		}
 		zzvrt.Reach("skipped-undefined-by-text")
 		return
 	}
